@@ -1,13 +1,19 @@
 #!/bin/bash
-# usage: tools/try_seed.sh <seed dir with wt/ and out/> <tier> <check ids...>
-# Confirms the seeded change (demo fails with it, passes on /repo HEAD) and runs the given checks against the
-# modified tree through KAWIN_VERIF_REPO (equivalent to applying the patch to /repo, without disturbing it).
+# usage: tools/try_seed.sh <seed dir with out/patch.diff, out/demo.py> <tier> <check ids...>
+# Applies the seeded change to a fresh scratch worktree of /repo HEAD (outside /repo and /verif), confirms the
+# demonstration (exit 1 with the change, exit 0 on /repo HEAD) and runs the given checks against the modified tree
+# through KAWIN_VERIF_REPO (equivalent to `git -C /repo apply`, without disturbing /repo). The worktree is removed.
 d=$1; tier=$2; shift 2
+wt=$d/wt_head
 echo "== $d"
-( cd $d/wt && timeout 600 /venv/bin/python $d/out/demo.py > $d/out/demo_modified.log 2>&1; echo "demo modified tree: exit $? : $(tail -1 $d/out/demo_modified.log | cut -c1-200)" )
-( cd /repo && timeout 600 /venv/bin/python $d/out/demo.py > $d/out/demo_clean.log 2>&1; echo "demo clean /repo   : exit $? : $(tail -1 $d/out/demo_clean.log | cut -c1-200)" )
+git -C /repo worktree remove --force $wt >/dev/null 2>&1
+git -C /repo worktree add -q --detach $wt HEAD || exit 3
+if ! git -C $wt apply $d/out/patch.diff; then echo "PATCH DOES NOT APPLY TO HEAD"; git -C /repo worktree remove --force $wt; exit 4; fi
+( cd $wt && timeout 900 /venv/bin/python $d/out/demo.py > $d/out/demo_modified.log 2>&1; echo "demo HEAD+patch : exit $? : $(tail -1 $d/out/demo_modified.log | cut -c1-200)" )
+( cd /repo && timeout 900 /venv/bin/python $d/out/demo.py > $d/out/demo_clean.log 2>&1; echo "demo /repo HEAD : exit $? : $(tail -1 $d/out/demo_clean.log | cut -c1-200)" )
 for id in "$@"; do
-  KAWIN_VERIF_REPO=$d/wt /venv/bin/python /verif/run_check.py $id --tier $tier --jobs ${JOBS:-8} > $d/out/check_$id.log 2>&1
+  KAWIN_VERIF_REPO=$wt /venv/bin/python /verif/run_check.py $id --tier $tier --jobs ${JOBS:-8} > $d/out/check_$id.log 2>&1
   echo "check $id on modified tree: exit $? ; $(grep -c '^VIOLATION' $d/out/check_$id.log) violation lines; $(grep '^SUMMARY' $d/out/check_$id.log | cut -c1-160)"
   grep '^VIOLATION' $d/out/check_$id.log | head -3 | cut -c1-250
 done
+git -C /repo worktree remove --force $wt
